@@ -10,7 +10,8 @@ Wrapper state is arbitrary: any subset of the inspectors already errored, any
 expected_format, any iteration order of the inspector set (explored over all
 permutations of three inspectors, because Python set order is arbitrary).
 """
-from pyvc.api import (proof, load, blank, fresh_bool, fresh_int, pick, assume,
+from pyvc.api import (proof, load, blank, fresh_bool, fresh_int, fresh_str, pick,
+                      assume,
                       check, cover, same, implies, conj, disj, neg)
 
 FI = 'oslo_utils/imageutils/format_inspector.py'
@@ -93,10 +94,15 @@ def make_exc(M, Boom, kind):
 @proof(['C06', 'C01'], targets=[(FI, 'InspectWrapper._process_chunk')])
 def process_chunk_isolates_faults():
     M = load(FI)
-    names = ['qcow2', 'vmdk', 'raw']
+    names = ['vhd', 'vhdx', 'raw']
     Fake, Boom, fakes = make_wrapper(M, names, None, None, None)
     order = pick('set_order', PERMS3)
-    expected = pick('expected_format', [None, 'qcow2', 'raw', 'iso'])
+    # any expected_format: None or an arbitrary string (a format name, a
+    # prefix or extension of one, the empty string, ...)
+    if pick('expected_given', [False, True]):
+        expected = fresh_str('expected_format')
+    else:
+        expected = None
     errored = pick('already_errored', [[False, False, False],
                                        [True, False, False],
                                        [False, True, False],
@@ -287,7 +293,7 @@ def close_without_close_method():
 # C03 decision table
 
 
-@proof(['C03'], targets=[(FI, 'InspectWrapper.formats'),
+@proof(['C03', 'C02'], targets=[(FI, 'InspectWrapper.formats'),
                          (FI, 'InspectWrapper.format')])
 def detection_decision_table():
     M = load(FI)
@@ -302,7 +308,9 @@ def detection_decision_table():
     w._source = None
     w._expected_format = None
     w._inspectors = set([fakes[i] for i in order])
-    w._errored_inspectors = set()
+    # the decision must not depend on which inspectors have errored
+    errored = pick('errored', [[], [0], [1, 2], [0, 1, 2]])
+    w._errored_inspectors = set([fakes[i] for i in errored])
     w._finished = fresh_bool('finished')
     for i in range(3):
         fakes[i].c = fresh_bool('complete%d' % i)
